@@ -27,9 +27,20 @@ type Shard struct {
 	Pre      int    `json:"pre"`
 	Fault    int    `json:"fault"`
 	NoCache  bool   `json:"nocache,omitempty"`
+	Delay    bool   `json:"delay,omitempty"` // delay bounding: "pre" counts deviations from the deterministic scheduler
 	MaxExecs int64  `json:"maxexecs,omitempty"`
 	DeadS    int    `json:"deadline_s,omitempty"`
 	Seed     uint64 `json:"seed,omitempty"`
+	Bounds   [][2]int `json:"bounds,omitempty"` // successive (preemption, fault) bounds explored with one shared state cache; default [[pre,fault]]
+}
+
+type BoundResult struct {
+	Pre, Fault  int
+	Execs       int64
+	States      int64
+	Transitions int64
+	Complete    bool
+	WallS       float64
 }
 
 type ShardViolation struct {
@@ -55,6 +66,7 @@ type ShardResult struct {
 	Truncated   int64            `json:"truncated"`
 	WallS       float64          `json:"wall_s"`
 	SampleTrace []string         `json:"sample_trace"`
+	PerBound    []BoundResult    `json:"per_bound"`
 }
 
 func getScenario(name string) *scen.Scenario {
@@ -72,13 +84,52 @@ func getScenario(name string) *scen.Scenario {
 
 func runShard(sh Shard) *ShardResult {
 	s := getScenario(sh.Scenario)
-	cfg := mc.Config{PreBound: sh.Pre, FaultBound: sh.Fault, NoCache: sh.NoCache, MaxExecs: sh.MaxExecs, Seed: sh.Seed}
-	if sh.DeadS > 0 {
-		cfg.Deadline = time.Now().Add(time.Duration(sh.DeadS) * time.Second)
+	bounds := sh.Bounds
+	if len(bounds) == 0 {
+		bounds = [][2]int{{sh.Pre, sh.Fault}}
 	}
-	r := mc.Explore(cfg, s.Body, s.Oracle)
+	var deadline time.Time
+	if sh.DeadS > 0 {
+		deadline = time.Now().Add(time.Duration(sh.DeadS) * time.Second)
+	}
+	cache := mc.NewStateCache()
+	r := &mc.Result{Outcomes: map[string]int64{}, Violations: map[string]*mc.Violation{}, Complete: true}
+	var per []BoundResult
+	for _, b := range bounds {
+		cfg := mc.Config{PreBound: b[0], FaultBound: b[1], NoCache: sh.NoCache, Delay: sh.Delay, MaxExecs: sh.MaxExecs, Seed: sh.Seed, Deadline: deadline, Cache: cache}
+		before := int64(cache.Len())
+		rb := mc.Explore(cfg, s.Body, s.Oracle)
+		r.Execs += rb.Execs
+		r.Transitions += rb.Transitions
+		r.Cuts += rb.Cuts
+		r.Truncated += rb.Truncated
+		r.WallS += rb.WallS
+		if rb.MaxDepth > r.MaxDepth {
+			r.MaxDepth = rb.MaxDepth
+		}
+		r.Fatal = append(r.Fatal, rb.Fatal...)
+		for k, v := range rb.Outcomes {
+			r.Outcomes[k] += v
+		}
+		for k, v := range rb.Violations {
+			if old := r.Violations[k]; old != nil {
+				old.Count += v.Count
+			} else {
+				r.Violations[k] = v
+			}
+		}
+		per = append(per, BoundResult{Pre: b[0], Fault: b[1], Execs: rb.Execs, States: int64(cache.Len()) - before, Transitions: rb.Transitions, Complete: rb.Complete, WallS: rb.WallS})
+		if !rb.Complete {
+			r.Complete = false
+			break
+		}
+	}
+	r.States = int64(cache.Len())
+	if sh.NoCache {
+		r.States = r.Transitions
+	}
 	out := &ShardResult{Shard: sh, Execs: r.Execs, States: r.States, Transitions: r.Transitions, Cuts: r.Cuts, MaxDepth: r.MaxDepth,
-		Outcomes: r.Outcomes, Fatal: r.Fatal, Complete: r.Complete, Truncated: r.Truncated, WallS: r.WallS}
+		Outcomes: r.Outcomes, Fatal: r.Fatal, Complete: r.Complete, Truncated: r.Truncated, WallS: r.WallS, PerBound: per}
 	// default schedule as a sample
 	x := mc.Replay(nil, 0, s.Body)
 	out.SampleTrace = x.Trace
@@ -261,13 +312,16 @@ func drive(id string) int {
 			c.Outcomes[r.Shard.Scenario+" => "+k] += n
 			distinctOutcomes[r.Shard.Scenario+" => "+k] = true
 		}
-		perShard = append(perShard, map[string]any{"scenario": r.Shard.Scenario, "pre_bound": r.Shard.Pre, "fault_bound": r.Shard.Fault, "cache": !r.Shard.NoCache,
+		perShard = append(perShard, map[string]any{"scenario": r.Shard.Scenario, "pre_bound": r.Shard.Pre, "fault_bound": r.Shard.Fault, "bounding": map[bool]string{false: "preemption", true: "delay"}[r.Shard.Delay], "cache": !r.Shard.NoCache,
 			"executions": r.Execs, "states": r.States, "transitions": r.Transitions, "cache_cuts": r.Cuts, "max_depth": r.MaxDepth, "complete": r.Complete,
-			"truncated_executions": r.Truncated, "wall_s": r.WallS, "distinct_outcomes": len(r.Outcomes)})
+			"truncated_executions": r.Truncated, "wall_s": r.WallS, "distinct_outcomes": len(r.Outcomes), "per_bound": r.PerBound})
 		if i < 3 {
 			c.Sample(map[string]any{"scenario": r.Shard.Scenario, "default_schedule": r.SampleTrace})
 		}
 		for _, v := range r.Violations {
+			if plan.Keep != nil && !plan.Keep(v.Sig) {
+				continue
+			}
 			if !v.Stable {
 				fmt.Fprintf(os.Stderr, "MACHINERY: non-reproducible schedule for %s in %s\n", v.Sig, r.Shard.Scenario)
 				machinery = true
